@@ -171,6 +171,84 @@ Section DispatchProofs.
         rewrite Er. cbn. eauto.
   Qed.
 
+  (* the same with the handler hypothesis only where it is used: at this request and state *)
+  Lemma dispatch_unicast_at q st :
+    (forall e h, lookup State t (q_pid q) = Some e ->
+       ((q_cc q = GET_COMMAND /\ e_get e = Some h) \/ (q_cc q = SET_COMMAND /\ e_set e = Some h)) ->
+       exists r, fst (h q st) = Some r /\ resp_ok q r) ->
+    2 * len t <= MAX_PDL ->
+    is_broadcast (q_dst q) = false -> directed_to (q_dst q) uid = true ->
+    q_cc q = GET_COMMAND \/ q_cc q = SET_COMMAND ->
+    exists r, fst (dispatch State incl t uid sd q st) = [(RDM_COMPLETED_OK, Some r)] /\ resp_ok q r.
+  Proof.
+    intros HC Hb B D CC.
+    assert (W : wf_cc q) by (unfold wf_cc; tauto).
+    assert (NK : forall reason, reason <= NR_INVALID_PORT ->
+                 exists r, nack_with_reason q reason 0 = Some r /\ resp_ok q r).
+    { intros reason Hr. destruct (nack_spec q reason 0 W Hr) as (r & E & O & _). eauto. }
+    unfold dispatch. rewrite D, B. cbn [negb andb].
+    assert (ND : (q_cc q =? DISCOVER_COMMAND) = false).
+    { destruct CC as [E|E]; rewrite E; reflexivity. }
+    rewrite ND. rewrite Bool.andb_false_r.
+    destruct (negb ((q_sub q =? sd) || (q_sub q =? ALL_RDM_SUBDEVICES))).
+    { destruct (NK NR_SUB_DEVICE_OUT_OF_RANGE) as (r & E & O); [vm_compute; discriminate|].
+      rewrite E. cbn. eauto. }
+    destruct ((q_sub q =? ALL_RDM_SUBDEVICES) && (q_cc q =? GET_COMMAND)).
+    { destruct (NK NR_SUB_DEVICE_OUT_OF_RANGE) as (r & E & O); [vm_compute; discriminate|].
+      rewrite E. cbn. eauto. }
+    destruct (lookup State t (q_pid q)) as [e|] eqn:L.
+    2:{ destruct (NK NR_UNKNOWN_PID) as (r & E & O); [vm_compute; discriminate|].
+        rewrite E. cbn. eauto. }
+    destruct CC as [E|E]; rewrite E; cbn [N.eqb Pos.eqb GET_COMMAND SET_COMMAND].
+    - change (GET_COMMAND =? GET_COMMAND) with true. cbv iota.
+      destruct (e_get e) as [h|] eqn:G.
+      + destruct (HC e h eq_refl (or_introl (conj E G))) as (r & Hr & O).
+        destruct (h q st) as [r0 s0]. cbn in Hr. subst r0. cbn. eauto.
+      + destruct (q_pid q =? PID_SUPPORTED_PARAMETERS).
+        * destruct (supported_ok q W Hb) as (r & Er & O). rewrite Er. cbn. eauto.
+        * destruct (NK NR_UNSUPPORTED_COMMAND_CLASS) as (r & Er & O); [vm_compute; discriminate|].
+          rewrite Er. cbn. eauto.
+    - change (SET_COMMAND =? GET_COMMAND) with false. change (SET_COMMAND =? SET_COMMAND) with true.
+      cbv iota.
+      destruct (e_set e) as [h|] eqn:G.
+      + destruct (HC e h eq_refl (or_intror (conj E G))) as (r & Hr & O).
+        destruct (h q st) as [r0 s0]. cbn in Hr. subst r0. cbn. eauto.
+      + destruct (NK NR_UNSUPPORTED_COMMAND_CLASS) as (r & Er & O); [vm_compute; discriminate|].
+        rewrite Er. cbn. eauto.
+  Qed.
+
+  (* where the new state and the reply come from: either no handler ran, or exactly the handler
+     installed for this PID and command class ran, once *)
+  Lemma dispatch_state q st :
+    snd (dispatch State incl t uid sd q st) = st \/
+    exists e h, lookup State t (q_pid q) = Some e /\
+      ((q_cc q = GET_COMMAND /\ e_get e = Some h) \/ (q_cc q = SET_COMMAND /\ e_set e = Some h)) /\
+      snd (dispatch State incl t uid sd q st) = snd (h q st) /\
+      (is_broadcast (q_dst q) = false ->
+       fst (dispatch State incl t uid sd q st) = [(RDM_COMPLETED_OK, fst (h q st))]).
+  Proof.
+    unfold dispatch.
+    destruct (negb (directed_to (q_dst q) uid)); [left; reflexivity|].
+    destruct (q_cc q =? DISCOVER_COMMAND); [left; reflexivity|].
+    destruct ((q_cc q =? GET_COMMAND) && is_broadcast (q_dst q)) eqn:GB; [left; reflexivity|].
+    destruct (negb ((q_sub q =? sd) || (q_sub q =? ALL_RDM_SUBDEVICES)));
+      [left; destruct (is_broadcast (q_dst q)); reflexivity|].
+    destruct ((q_sub q =? ALL_RDM_SUBDEVICES) && (q_cc q =? GET_COMMAND)); [left; reflexivity|].
+    destruct (lookup State t (q_pid q)) as [e|] eqn:L;
+      [|left; destruct (is_broadcast (q_dst q)); reflexivity].
+    destruct (q_cc q =? GET_COMMAND) eqn:G.
+    - cbn [andb] in GB. rewrite GB. apply N.eqb_eq in G.
+      destruct (e_get e) as [h|] eqn:EG.
+      + right. exists e, h. destruct (h q st) as [r s'] eqn:Eh. cbn. auto 6.
+      + left. destruct (q_pid q =? PID_SUPPORTED_PARAMETERS); reflexivity.
+    - destruct (q_cc q =? SET_COMMAND) eqn:S.
+      + apply N.eqb_eq in S. destruct (e_set e) as [h|] eqn:ES.
+        * right. exists e, h. destruct (h q st) as [r s'] eqn:Eh.
+          destruct (is_broadcast (q_dst q)); cbn; split; auto; split; auto; split; auto; discriminate.
+        * left. destruct (is_broadcast (q_dst q)); reflexivity.
+      + left. destruct (is_broadcast (q_dst q)); reflexivity.
+  Qed.
+
   (* requests that never reach a handler leave the state alone *)
   Lemma dispatch_state_unknown_pid q st :
     lookup State t (q_pid q) = None -> snd (dispatch State incl t uid sd q st) = st.
@@ -189,12 +267,20 @@ Section FanProofs.
   Definition final_saved (tr : tracker) (first : reply) : reply :=
     if t_sofar tr =? 0 then first else t_saved tr.
 
+  (* the state after every sub-device has handled its copy of the request, in map order *)
+  Fixpoint run_states (devs : list (N * device State)) (q : request) (st : State) : State :=
+    match devs with
+    | [] => st
+    | (_, d) :: rest => run_states rest q (snd (d q st))
+    end.
+
   Lemma fan_loop_once q :
     forall devs tr st,
       subs_once devs -> devs <> [] -> t_alive tr = true ->
       t_sofar tr + len devs = t_n tr -> t_n tr < 65536 ->
       exists st' first,
         (forall k d rest, devs = (k, d) :: rest -> fst (d q st) = [first]) /\
+        st' = run_states devs q st /\
         fan_loop State devs q tr [] st = FOk [final_saved tr first] st'.
   Proof.
     induction devs as [|[k d] rest IH]; intros tr st HO NE AL SUM LT; [congruence|].
@@ -208,18 +294,20 @@ Section FanProofs.
     - apply N.eqb_eq in EQ.
       assert (rest = []) as ->.
       { destruct rest; [reflexivity|]. rewrite len_cons in SUM. lia. }
-      cbn [app fan_loop]. exists st1, r. split.
+      cbn [app fan_loop]. exists st1, r. split; [|split].
       + intros k' d' rest' E. inversion E; subst. rewrite Ed. reflexivity.
+      + cbn [run_states]. rewrite Ed. reflexivity.
       + reflexivity.
     - apply N.eqb_neq in EQ. cbn [app].
       assert (NE' : rest <> []).
       { intros ->. unfold len in SUM; cbn in SUM. lia. }
       set (tr' := mkTr (t_n tr) (t_sofar tr + 1) (if t_sofar tr =? 0 then r else t_saved tr) true).
-      destruct (IH tr' st1) as (st' & first' & _ & E'); auto.
+      destruct (IH tr' st1) as (st' & first' & _ & ES & E'); auto.
       + intros k' d' I. apply (HO k' d' (or_intror I)).
       + cbn. lia.
-      + exists st', r. split.
+      + exists st', r. split; [|split].
         * intros k' d' rest' E. inversion E; subst. rewrite Ed. reflexivity.
+        * cbn [run_states]. rewrite Ed. exact ES.
         * rewrite E'. unfold final_saved. cbn [t_sofar t_saved tr'].
           replace (t_sofar tr + 1 =? 0) with false by (symmetry; apply N.eqb_neq; lia).
           reflexivity.
@@ -245,7 +333,7 @@ Section FanProofs.
       + destruct (is_broadcast (q_dst q)); eauto.
       + destruct devs as [|p rest] eqn:Ed; [eauto|]. rewrite <- Ed in *.
         destruct (fan_loop_once q devs (mkTr (u16 (len devs)) 0 (RDM_COMPLETED_OK, None) true) st)
-          as (st' & first & _ & E); auto.
+          as (st' & first & _ & _ & E); auto.
         * rewrite Ed; discriminate.
         * cbn. rewrite u16_id by lia. lia.
         * cbn. rewrite u16_id by lia. lia.
@@ -266,11 +354,52 @@ Section FanProofs.
     unfold fan_out. replace (q_cc q =? GET_COMMAND) with false by (symmetry; apply N.eqb_neq; exact CC).
     destruct (fan_loop_once q ((k, d) :: rest)
                 (mkTr (u16 (len ((k, d) :: rest))) 0 (RDM_COMPLETED_OK, None) true) st)
-      as (st' & first & F & E); auto.
+      as (st' & first & F & _ & E); auto.
     - discriminate.
     - cbn [t_sofar t_n]. rewrite u16_id by lia. lia.
     - cbn [t_n]. rewrite u16_id by lia. lia.
     - rewrite E. rewrite (F k d rest eq_refl). unfold final_saved. cbn. eauto.
+  Qed.
+
+  (* ... and the state is the one left by all sub-devices, each having run once *)
+  Lemma fan_out_state k d rest q st :
+    subs_once ((k, d) :: rest) -> len ((k, d) :: rest) < 65536 ->
+    q_sub q = ALL_RDM_SUBDEVICES -> q_cc q <> GET_COMMAND ->
+    subdev_send State ((k, d) :: rest) q st =
+    FOk (fst (d q st)) (run_states ((k, d) :: rest) q st).
+  Proof.
+    intros HO LT SUB CC. unfold subdev_send. rewrite SUB. rewrite N.eqb_refl.
+    unfold fan_out. replace (q_cc q =? GET_COMMAND) with false by (symmetry; apply N.eqb_neq; exact CC).
+    destruct (fan_loop_once q ((k, d) :: rest)
+                (mkTr (u16 (len ((k, d) :: rest))) 0 (RDM_COMPLETED_OK, None) true) st)
+      as (st' & first & F & ES & E); auto.
+    - discriminate.
+    - cbn [t_sofar t_n]. rewrite u16_id by lia. lia.
+    - cbn [t_n]. rewrite u16_id by lia. lia.
+    - rewrite E, ES. rewrite (F k d rest eq_refl). unfold final_saved. cbn [t_sofar N.eqb]. reflexivity.
+  Qed.
+
+  (* when does a fanned-out SET that reports a NACK leave the state alone?  When every sub-device
+     NACKed (each sub-device keeps its state on a NACK).  So the known finding C13-fanout-mixed-nack
+     needs a sub-device after the first one that did NOT answer with a NACK. *)
+  Definition nack_keeps (d : device State) : Prop :=
+    forall q st s r, fst (d q st) = [(s, Some r)] -> r_type r = RDM_NACK_REASON -> snd (d q st) = st.
+  Fixpoint all_nack (devs : list (N * device State)) (q : request) (st : State) : Prop :=
+    match devs with
+    | [] => True
+    | (_, d) :: rest =>
+      (exists s r, fst (d q st) = [(s, Some r)] /\ r_type r = RDM_NACK_REASON) /\
+      all_nack rest q (snd (d q st))
+    end.
+  Lemma all_nack_state devs q :
+    forall st, (forall k d, In (k, d) devs -> nack_keeps d) -> all_nack devs q st ->
+               run_states devs q st = st.
+  Proof.
+    induction devs as [|[k d] rest IH]; intros st NK AN; [reflexivity|].
+    cbn [all_nack] in AN. destruct AN as ((s & r & E & T) & AN). cbn [run_states].
+    assert (S1 : snd (d q st) = st) by (apply (NK k d (or_introl eq_refl) q st s r E T)).
+    rewrite S1 in *. apply IH; [|exact AN].
+    intros k' d' I. apply (NK k' d' (or_intror I)).
   Qed.
 End FanProofs.
 
